@@ -250,8 +250,68 @@ static int run_spot(char **t,int nt,FILE *fo)
     return 0;
 }
 
+/* ------------------------------------------------------------------ accumulation checks
+ *   acc <fmt> <n> v1 .. vn        fmt in a1 a4 a8 a8r8g8b8, raw pixel values in hex
+ * n 1x1 glyphs of format fmt (raw pixel v_i) drawn at one place by pixman_composite_glyphs (SRC, white,
+ * dest, mask_format = fmt) onto a 1x1 destination of the same format: the destination pixel then IS the
+ * accumulated mask pixel (white IN mask, widened and narrowed back).  Expected without pixman (theorems
+ * Props/C17Add: a1/a4/a8_white_add, *_accumulate_sum, ca_accumulate_channels): alpha-only formats
+ * min (2^bits - 1, sum v_i); a8r8g8b8 (component alpha) per byte min (255, sum).  Little-endian hosts. */
+static int run_acc(char **t,int nt,FILE *fo)
+{
+    if(nt<4) return -1;
+    pixman_format_code_t f=fmt_code(t[1]); int n=atoi(t[2]);
+    if(n<1||n>8||nt<3+n) return -1;
+    int bits= f==PIXMAN_a1?1: f==PIXMAN_a4?4: f==PIXMAN_a8?8: f==PIXMAN_a8r8g8b8?32:0;
+    if(!bits) return -1;
+#if !defined(__BYTE_ORDER__) || __BYTE_ORDER__ != __ORDER_LITTLE_ENDIAN__
+    return -1;
+#endif
+    uint32_t v[8];
+    for(int i=0;i<n;i++){ v[i]=(uint32_t)strtoul(t[3+i],0,16); if(bits<32 && v[i]>=(1u<<bits)) return -1; }
+    uint32_t dpx[1]={0};
+    pixman_image_t *d=pixman_image_create_bits(f,1,1,dpx,4);
+    pixman_color_t wc={0xffff,0xffff,0xffff,0xffff};
+    pixman_image_t *white=pixman_image_create_solid_fill(&wc);
+    pixman_glyph_cache_t *cache=pixman_glyph_cache_create();
+    pixman_glyph_cache_freeze(cache);
+    pixman_glyph_t run[8];
+    for(int i=0;i<n;i++){
+        uint32_t gp[1]={v[i]};
+        pixman_image_t *g=pixman_image_create_bits(f,1,1,gp,4);
+        const void *gl=pixman_glyph_cache_insert(cache,(void*)(uintptr_t)7,(void*)(uintptr_t)(i+1),0,0,g);
+        pixman_image_unref(g);
+        if(!gl){ fprintf(fo,"insert-failed\n"); return 0; }
+        run[i].x=0; run[i].y=0; run[i].glyph=gl;
+    }
+    pixman_composite_glyphs(PIXMAN_OP_SRC,white,d,f,0,0,0,0,0,0,1,1,cache,n,run);
+    uint32_t want=0, got;
+    if(bits<32){ uint32_t s=0, mx=(1u<<bits)-1; for(int i=0;i<n;i++) s+=v[i]; want= s>mx?mx:s; got=dpx[0]&mx; }
+    else { for(int c=0;c<4;c++){ uint32_t s=0; for(int i=0;i<n;i++) s+=(v[i]>>(8*c))&0xff; if(s>255) s=255; want|=s<<(8*c); } got=dpx[0]; }
+    if(got!=want) fprintf(fo,"ACC-MISMATCH lib=%x want=%x\n",got,want);
+    else fprintf(fo,"ok acc %u\n",got);
+    pixman_glyph_cache_thaw(cache); pixman_glyph_cache_destroy(cache);
+    pixman_image_unref(white); pixman_image_unref(d);
+    return 0;
+}
+
+static void gen_accs(FILE *fo)
+{
+    static const unsigned e8[]={0,1,2,127,128,129,254,255};
+    for(int a=0;a<2;a++) for(int b=0;b<2;b++){ fprintf(fo,"acc a1 2 %x %x\n",a,b); for(int c=0;c<2;c++) fprintf(fo,"acc a1 3 %x %x %x\n",a,b,c); }
+    for(int a=0;a<16;a++) for(int b=0;b<16;b++) fprintf(fo,"acc a4 2 %x %x\n",a,b);
+    for(int a=0;a<16;a+=3) for(int b=0;b<16;b+=2) for(int c=0;c<16;c+=5){ fprintf(fo,"acc a4 3 %x %x %x\n",a,b,c); fprintf(fo,"acc a4 3 %x %x %x\n",c,b,a); }
+    for(int i=0;i<8;i++) for(int j=0;j<8;j++){ fprintf(fo,"acc a8 2 %x %x\n",e8[i],e8[j]); fprintf(fo,"acc a8 3 %x %x %x\n",e8[i],e8[j],e8[(i+j)%8]); fprintf(fo,"acc a8 3 %x %x %x\n",e8[(i+j)%8],e8[j],e8[i]); }
+    for(int a=0;a<256;a+=17) for(int b=0;b<256;b+=15) fprintf(fo,"acc a8 2 %x %x\n",a,b);
+    for(int i=0;i<8;i++) for(int j=0;j<8;j++){
+        unsigned x=(e8[i]<<24)|(e8[j]<<16)|(e8[(i+3)%8]<<8)|e8[(j+5)%8], y=(e8[j]<<24)|(e8[(i+1)%8]<<16)|(e8[i]<<8)|e8[(i+j)%8], z=0x80ff017fu;
+        fprintf(fo,"acc a8r8g8b8 2 %x %x\n",x,y); fprintf(fo,"acc a8r8g8b8 3 %x %x %x\n",x,y,z); fprintf(fo,"acc a8r8g8b8 3 %x %x %x\n",z,y,x);
+    }
+}
+
 static void gen_spots(FILE *fo)
 {
+    gen_accs(fo);
     static const char *pix[]={"ffff0000","ff00ff00","ff0000ff"};
     static const int pos[][10]={ /* gw gh ox oy x y dx dy mx my */
         {5,4, 0,0, 3,2, 0,0, 0,0}, {6,6, 2,5, 1,3, 4,2, -1,-2}, {7,3, -2,-1, 14,12, 1,1, 3,0}, {3,9, 4,4, 0,0, 2,3, 0,2}, {1,1, 0,0, 19,15, 0,0, 1,1}};
@@ -332,6 +392,18 @@ static void gen(FILE *fo,long n)
     }
 }
 
+#include <signal.h>
+#include <setjmp.h>
+#include <unistd.h>
+#include <sys/time.h>
+static sigjmp_buf wd_jb;
+static void wd_alarm(int s){ (void)s; siglongjmp(wd_jb,1); }
+static void wd_crash(int s){ (void)s; siglongjmp(wd_jb,2); }
+static void wd_arm(int cpu_ms,int wall_ms){
+    struct itimerval it={{0,0},{cpu_ms/1000,(cpu_ms%1000)*1000}}; setitimer(ITIMER_VIRTUAL,&it,NULL);
+    struct itimerval iw={{0,0},{wall_ms/1000,(wall_ms%1000)*1000}}; setitimer(ITIMER_REAL,&iw,NULL);
+}
+
 int main(int argc,char **argv)
 {
     if(argc>=5 && !strcmp(argv[1],"gen")){
@@ -346,12 +418,23 @@ int main(int argc,char **argv)
     }
     if(argc>=4 && !strcmp(argv[1],"exec")){
         FILE *fi=fopen(argv[2],"r"),*fo=fopen(argv[3],"w"); if(!fi||!fo) return 2;
+        signal(SIGVTALRM,wd_alarm); signal(SIGALRM,wd_alarm);
+        signal(SIGSEGV,wd_crash); signal(SIGBUS,wd_crash); signal(SIGABRT,wd_crash); signal(SIGFPE,wd_crash);
         static char buf[1<<15];
         while(fgets(buf,sizeof buf,fi)){
             char *tok[MAXTOK]; int nt=0; for(char *s=strtok(buf," \t\r\n");s&&nt<MAXTOK;s=strtok(NULL," \t\r\n")) tok[nt++]=s;
             if(nt==0){ fprintf(fo,"bad-op\n"); continue; }
-            if(!strcmp(tok[0],"spot")){ if(run_spot(tok,nt,fo)<0) fprintf(fo,"bad-op\n"); continue; }
-            if(run_request(tok,nt,fo)<0) fprintf(fo,"bad-op\n");
+            /* every request (cache calls and drawing calls of the library) runs under a CPU-time and a wall-clock
+             * watchdog; an expired watchdog / a fatal signal is reported as the request's result and the process
+             * exits with status 3 (its heap is no longer trusted): checks/C17.py restarts it on the remaining lines */
+            { int why=sigsetjmp(wd_jb,1);
+              if(why){ wd_arm(0,0); fprintf(fo,why==1?"HANG the request did not terminate\n":"CRASH fatal signal\n"); fflush(fo); _exit(3); } }
+            wd_arm(3000,15000);
+            if(!strcmp(tok[0],"spot")){ if(run_spot(tok,nt,fo)<0) fprintf(fo,"bad-op\n"); }
+            else if(!strcmp(tok[0],"acc")){ if(run_acc(tok,nt,fo)<0) fprintf(fo,"bad-op\n"); }
+            else if(run_request(tok,nt,fo)<0) fprintf(fo,"bad-op\n");
+            wd_arm(0,0);
+            fflush(fo);
         }
         fclose(fo); return 0;
     }
